@@ -103,6 +103,22 @@ def systematic(tier):
                         schedule.append(action)
                 cases.append({'program': canon[name], 'schedule': schedule, 'opts': {'comm': True, 'pid': PID},
                               'flavour': 'quiescent', 'origin': f'systematic:{name}'})
+    # timed: a pause and, at the same or the next instant, a play - while a step is in flight at every quarter of its run
+    for name in ('async1', 'wait1', 'sync2'):
+        _, _, info = common.dry_run(canon[name])
+        horizon = info.get('time', 1.0) + 0.5
+        steps = int(horizon * 4) + 1
+        for quarter in range(steps):
+            for gap in (0, 0.25):
+                for kind in ('rpc', 'bcast'):
+                    for wrap in (False, True):
+                        schedule = [{'act': kind, 'intent': 'pause', 'msg': 'pause-t', 't': quarter / 4, 'via': 'async', 'delay': 0},
+                                    {'act': kind, 'intent': 'play', 't': quarter / 4 + gap, 'via': 'async', 'delay': 0}]
+                        opts = {'comm': True, 'pid': PID}
+                        if wrap:
+                            opts['wrap'] = True
+                        cases.append({'program': canon[name], 'schedule': schedule, 'opts': opts, 'flavour': 'timed',
+                                      'origin': f'systematic:{name}:pause-play'})
     _sys_cache[tier] = cases
     return cases
 
@@ -502,6 +518,23 @@ def _oracle_single(case, engine, proc, communicator, data, result, late_reply, c
         raised = any(e[0] == 'raise' for e in data['events'])
         if not (final == 'killed' or (final == 'excepted' and raised)):
             result.violate('remote_kill_lost', final, f'a kill request handled while the process was live left it {final}')
+
+    # -- a play message handled while live withdraws a pause that has not taken effect yet, like the call ------------------
+    # judged where the environment takes over (first drive-out action, else the end): if the last pause/play request the
+    # process got - as a message or as a call of its own - was a play, it is not paused then
+    last_control, paused_now = None, False
+    for event in data['events']:
+        if event[0] == 'act' and event[3] == 'driveout':
+            break
+        if event[0] == 'msg' and event[4] and event[3] in ('pause', 'play'):
+            last_control = event[3]
+        elif event[0] == 'call' and event[2] in ('pause', 'play') and event[4]:
+            last_control = event[2]
+        elif event[0] == 'sample':
+            paused_now = bool(event[2]) and not event[3]
+    if last_control == 'play' and paused_now and flavour in ('timed', 'quiescent') and not case.get('fault'):
+        result.violate('remote_play_lost', 'paused', 'the last pause/play request handled while the process was live was a play, '
+                                                     'yet the process sits paused when nothing is left to run')
 
     # -- announcements ----------------------------------------------------------------------------------------
     # (a process recreated from a checkpoint enters no state when it is loaded: its first announcement is its next transition)
